@@ -52,29 +52,33 @@ def outcomeText (s : St) (dropped : Bool) : String :=
   let calls :=
     if dropped then "-" else
     let main := String.ofList [callChar (call s .sendData), callChar (call s .createOffer), callChar (call s .waitForConnected)]
-    let recv := if s.chans.isEmpty then "-" else String.ofList (s.chans.map (fun c => if c.closed then 'o' else 'p'))
-    s!"{main}/{recv}/h{b01 s.held}"
+    let recv := if s.chans.isEmpty then "-" else String.ofList (s.chans.map (fun c => if c.senderDropped then 'o' else 'p'))
+    s!"{main}/{recv}/h{b01 s.held}/b{s.blocked}"
   s!"{peerText s.peer},{sigText s.sig},{reasonText s.reason},{ev},{calls}"
 
 /-- the model's start state from the harness' snapshot of the real connection -/
-def preState (mode : Mode) (hasApp : Bool) (nch : Nat) (peer : PeerSt) (sig : SigSt) (ice : IceSt) (dtls : DtlsSt)
-    (sctpPresent role : Bool) (reason : Option Reason) : St :=
+def preState (mode : Mode) (srtp : Bool) (hasApp : Bool) (nch : Nat) (peer : PeerSt) (sig : SigSt) (ice : IceSt) (dtls : DtlsSt)
+    (sctpPresent role : Bool) (reason : Option Reason) (descs : Bool) : St :=
   let b := base mode hasApp nch
   let drv : Drv :=
     if peer = .connected then .running
     else if mode = .webrtc ∧ dtls = .handshaking then .starting
     else if mode = .webrtc ∧ ice = .connected ∧ !role then .waitRole
+    else if mode = .direct ∧ srtp ∧ !descs ∧ ice = .connected ∧ peer = .new then .waitDescs
     else if peer = .failed ∨ peer = .closed then .done
     else .idle
   let iceSeen := if drv = .idle ∧ ice = .connected then .checking else ice
   { b with peer := peer, sig := sig, reason := reason, ice := ice, iceSeen := iceSeen, dtls := dtls, dtlsSeen := dtls,
-           role := role, held := sctpPresent,
+           role := role, held := sctpPresent, needDescs := srtp, descs := descs || !srtp,
            sctp := if sctpPresent then (if dtls = .connected then .running else .waiting) else .absent,
            drv := drv }
 
 def eventActs : String → Option (List (List Act))
   | "close" => some [[.callClose .localClose]]
-  | "blockedSenderClose" => some [[.callClose .localClose]]
+  | "blockedSenderClose" => some [[.senderBlocks, .senderBlocks, .callClose .localClose]]
+  | "blockedSenderVanish" => some [[.senderBlocks, .senderBlocks, .iceDisconnect]]
+  | "closeChannelTwice" => some [[.closeChannel 0, .closeChannel 0]]
+  | "closeChannelThenClose" => some [[.closeChannel 0, .callClose .localClose]]
   | "closeTwice" => some [[.callClose .localClose, .callClose .localClose, .callClose .localClose]]
   | "drop" => some [[.appDrop]]
   | "peerCloseNotify" => some [[.peerCloseNotify]]
@@ -113,30 +117,42 @@ partial def explore (dropped : Bool) (todo : List (St × List Act)) (seen : List
         | some a => (step s a, removeNth pend i)
         | none => (s, pend))
       -- optional progress actions may also simply never happen
-      let optional := pend.all (fun a => a == .iceConnect || a == .dtlsConnect || a == .roleSet)
-      let acc := if ints.isEmpty && optional then
+      let optional := pend.all (fun a => a == .iceConnect || a == .dtlsConnect || a == .roleSet || a == .descsSet)
+      let acc := if ints.isEmpty && optional && !(s.dtls == .handshaking && !s.dtlsExited) then
           let t := outcomeText s dropped
           if acc.contains t then acc else t :: acc
         else acc
       explore dropped (nextInt ++ nextExt ++ rest) seen acc
 
+/-- is an outcome text terminal (lenient reading)? `peer,sig,reason,…` -/
+def outcomeTerminal (t : String) : Bool :=
+  match fields t with
+  | pe :: _ :: re :: _ => (pe = "disconnected" || pe = "failed" || pe = "closed") && re ≠ "-"
+  | _ => false
+
 def life (args : List String) : String :=
   match args with
   | m :: hasApp :: nch :: _phase :: progress :: snap :: events :: "|" :: observed :: _ =>
     match nch.toNat?, fields snap with
-    | some nch, [pe, si, ic, dt, sc, ro, re] =>
+    | some nch, [pe, si, ic, dt, sc, ro, re, ds] =>
       match parsePeer pe, parseSig si, parseIce ic, parseDtls dt, parseReason re with
       | some pe, some si, some ic, some dt, some re =>
         let mode := if m = "w" then Mode.webrtc else Mode.direct
-        let s0 := preState mode (hasApp = "1") nch pe si ic dt (sc = "1") (ro = "1") re
+        let s0 := preState mode (m = "s") (hasApp = "1") nch pe si ic dt (sc = "1") (ro = "1") re (ds = "1")
         let evs := events.splitOn "+"
         match evs.mapM eventActs with
         | none => "bad-event"
         | some alts =>
-          let prog : List Act := if progress = "1" then [.iceConnect, .dtlsConnect, .roleSet] else []
+          let prog : List Act := if progress = "1" then [.iceConnect, .dtlsConnect, .roleSet, .descsSet] else []
           let dropped := evs.contains "drop"
           let outs := (alternatives alts).flatMap (fun ext => explore dropped [(s0, ext ++ prog)] [] [])
-          if outs.contains observed then observed
+          let outs := outs.eraseDups
+          -- the property on the model itself: every quiescent outcome of a terminating event is terminal
+          let terminating := !(evs.contains "closeChannelTwice")
+          let bad := if terminating then outs.filter (fun o => !outcomeTerminal o) else []
+          let obs := observed.splitOn ";"
+          if !bad.isEmpty then "model-nonterminal:" ++ "|".intercalate bad
+          else if obs.all (fun o => outs.contains o) then observed
           else "model-outcomes:" ++ "|".intercalate outs
       | _, _, _, _, _ => "bad-snapshot"
     | _, _ => "bad-snapshot"
